@@ -19,6 +19,7 @@ From Coq Require Import Ascii String List ZArith Bool Arith.
 Import ListNotations.
 From TI Require Import model.Query model.QuerySpec proofs.QueryReadProofs proofs.QueryParseProofs
   proofs.QueryGetProofs proofs.QueryEndProofs.
+From TI Require gen.QuerySrc proofs.QuerySrcTie.
 Open Scope Z_scope.
 
 (** *** the read loop *)
@@ -338,3 +339,14 @@ Theorem C12_silent_gives_defaults :
        pend st' = [] /\ now st' <= now st + qtimeout cfg + 2 * c).
 Proof. exact silent_defaults. Qed.
 Print Assumptions C12_silent_gives_defaults.
+
+(** *** the colour-component scaling tied to the source as a theorem (T): the element expression
+    of [x_parse_color]'s comprehension is translated from [_ctlseqs.py] on every run into
+    [gen/QuerySrc.v] by [harness/tx/tx_query.py]; the model's [scale_component] (what every
+    colour theorem above is about) is that expression for EVERY component of hex digits *)
+Theorem C12_source_scale_component :
+  forall c, c <> nil -> forallb is_hex c = true ->
+  scale_component c =
+  Some (TI.gen.QuerySrc.src_scale_component (hex_int c) (Z.of_nat (length c))).
+Proof. exact TI.proofs.QuerySrcTie.scale_component_defined. Qed.
+Print Assumptions C12_source_scale_component.
